@@ -412,13 +412,37 @@ func cmdCheck(args []string) int {
 	ch := make(chan int)
 	var doneN int
 	var dmu sync.Mutex
+	running := map[int]time.Time{}
+	stopTick := make(chan struct{})
+	go func() {
+		tk := time.NewTicker(60 * time.Second)
+		defer tk.Stop()
+		for {
+			select {
+			case <-stopTick:
+				return
+			case <-tk.C:
+				dmu.Lock()
+				for i, t0 := range running {
+					if time.Since(t0) > 90*time.Second {
+						fmt.Printf("  STILL-RUNNING %.0fs %s %v\n", time.Since(t0).Seconds(), tasks[i].Entry.Entry, tasks[i].Presets)
+					}
+				}
+				dmu.Unlock()
+			}
+		}
+	}()
 	for w := 0; w < workers; w++ {
 		wg.Add(1)
 		go func() {
 			defer wg.Done()
 			for i := range ch {
+				dmu.Lock()
+				running[i] = time.Now()
+				dmu.Unlock()
 				results[i] = runTask(eng, tasks[i], solverBin, timeout, unwind, sampleOK, second, verbose)
 				dmu.Lock()
+				delete(running, i)
 				doneN++
 				if verbose || doneN%50 == 0 {
 					fmt.Printf("  [%d/%d] %s %v: %d paths, %.1fs\n", doneN, len(tasks), tasks[i].Entry.Entry, tasks[i].Presets, len(results[i].Results), results[i].Wall)
@@ -432,6 +456,7 @@ func cmdCheck(args []string) int {
 	}
 	close(ch)
 	wg.Wait()
+	close(stopTick)
 
 	return judge(eng, cfg, ck, property, tier, seed, known, tasks, results, t0, loadS, timeout, unwind, solverBin, second)
 }
